@@ -481,14 +481,44 @@ def run(ctx):
         closed.close()
         import urllib.error
         t = suds.transport.http.HttpTransport()
-        ctx.case("refused", True)
+        for method in ("send", "open"):
+            ctx.case(("refused", method), True)
+            try:
+                if method == "send":
+                    t.send(suds.transport.Request("http://127.0.0.1:%d/x" % port, b"<m/>"))
+                else:
+                    t.open(suds.transport.Request("http://127.0.0.1:%d/x.wsdl" % port))
+                ctx.fail("connection refused did not raise", {"method": method}, "returned", "URLError")
+            except suds.transport.TransportError as e:
+                ctx.fail("non-HTTP failure was turned into a TransportError", {"method": method}, repr(e), "URLError")
+            except urllib.error.URLError:
+                pass
+        # proxies come from the proxy option only: with none configured the request goes to the server named in the
+        # URL, whatever the process environment says about proxies
+        import os
+        saved = {k: os.environ.get(k) for k in ("http_proxy", "HTTP_PROXY", "all_proxy", "ALL_PROXY", "no_proxy", "NO_PROXY")}
         try:
-            t.send(suds.transport.Request("http://127.0.0.1:%d/x" % port, b"<m/>"))
-            ctx.fail("connection refused did not raise", {}, "returned", "URLError")
-        except suds.transport.TransportError as e:
-            ctx.fail("non-HTTP failure was turned into a TransportError", {}, repr(e), "URLError")
-        except urllib.error.URLError:
-            pass
+            for k in saved:
+                os.environ.pop(k, None)
+            os.environ["http_proxy"] = "http://127.0.0.1:%d" % port       # (nothing listens there)
+            os.environ["HTTP_PROXY"] = "http://127.0.0.1:%d" % port
+            srv.httpd.plan = lambda h: {"status": 200, "body": b"<direct/>"}
+            del srv.httpd.seen[:]
+            ctx.case("environment-proxy", True)
+            try:
+                r = suds.transport.http.HttpTransport().send(suds.transport.Request(srv.url(), b"<m/>"))
+                got = [r.message, len(srv.httpd.seen)]
+            except Exception as e:
+                got = repr(e)
+            if got != [b"<direct/>", 1]:
+                ctx.fail("a request without a configured proxy did not go to the server named in its URL (the process "
+                         "environment names a proxy)", {"http_proxy": os.environ["http_proxy"]}, got, [b"<direct/>", 1])
+        finally:
+            for k, v in saved.items():
+                if v is None:
+                    os.environ.pop(k, None)
+                else:
+                    os.environ[k] = v
         # documents are opened the same way: an error status surfaces with its code and its body
         for status in (403, 404, 500, 503):
             body = b"<html>no %d</html>" % status
